@@ -345,9 +345,11 @@ func runC14(c *Ctx) {
 // the bucket of the expiration it was filed under. Shared by C14, C13 and C07.
 
 // filingBucket classifies the bucket number n under which a key with expiration term exp is filed:
-//   plain   - storageBucket(exp)
-//   clamped - storageBucket(exp), replaced by lastCleanedBucketNum+1 exactly when it is <= lastCleanedBucketNum
-//             (φ governed by that comparison, or the builtin max of the two)
+//
+//	plain   - storageBucket(exp)
+//	clamped - storageBucket(exp), replaced by lastCleanedBucketNum+1 exactly when it is <= lastCleanedBucketNum
+//	          (φ governed by that comparison, or the builtin max of the two)
+//
 // anything else is not a bucket number of that expiration.
 func filingBucket(fn *ssa.Function, tb *TB, n ssa.Value, exp string) (kind string, why string) {
 	sb := "call[storageBucket](" + exp + ")"
